@@ -896,14 +896,19 @@ Section Sim.
                  | Some n => match lookup_frame scope n with Some _ => [] | None => [(n, this)] end
                  | None => []
                  end).
-    set (inp := match oi with Some i => [("inputs", i)] | None => [] end).
+    (* F9 repaired: the caller's `inputs` only when the scope did not capture the name *)
+    set (inp := match lookup_frame scope "inputs" with
+                | Some _ => []
+                | None => match oi with Some i => [("inputs", i)] | None => [] end
+                end).
     destruct (bind_params params 0 args (inp ++ self)) as [local|] eqn:Eb.
     2:{ exists Panic, st. split; [|split; [apply store_le_refl|intros ? Hq; discriminate Hq]].
         intros fr cb Hfr. unfold call_passed. rewrite Hfr. fold inp. fold self. rewrite Eb. reflexivity. }
     set (Hh := (FOwned, local) :: match scope with [] => [] | _ => [(FShared, scope)] end).
     assert (Hacc : closed_frame st (inp ++ self)).
     { apply Forall_app; split.
-      - unfold inp. destruct oi; [constructor; [apply Hoi; reflexivity|constructor]|constructor].
+      - unfold inp. destruct (lookup_frame scope "inputs"); [constructor|].
+        destruct oi; [constructor; [apply Hoi; reflexivity|constructor]|constructor].
       - unfold self. destruct (lam_name st id) as [nm|]; [|constructor].
         destruct (lookup_frame scope nm); [constructor|constructor; [exact Hthis|constructor]]. }
     assert (Hlocal : closed_frame st local) by (eapply bind_params_closed; eauto).
